@@ -28,6 +28,10 @@ SITE = {
     "inner_plaintext": "pkg/protocol/recordlayer/inner_plaintext.go:InnerPlaintext.Unmarshal",
     "unpack": "pkg/protocol/recordlayer/recordlayer.go:UnpackDatagram",
     "record12": "pkg/protocol/recordlayer/recordlayer.go:RecordLayer.Unmarshal",
+    "unified_header": "pkg/protocol/recordlayer/header_13.go:UnifiedHeader.Unmarshal",
+    "record13_ciphertext": "pkg/protocol/recordlayer/recordlayer_13.go:CiphertextRecord13.Unmarshal",
+    "record13_plaintext": "pkg/protocol/recordlayer/recordlayer_13.go:PlaintextRecord13.Unmarshal",
+    "unpack13": "pkg/protocol/recordlayer/recordlayer_13.go:UnpackDatagram13",
     "handshake": "pkg/protocol/handshake/handshake.go:Handshake.Unmarshal",
     "hello_verify_request": "pkg/protocol/handshake/message_hello_verify_request.go:MessageHelloVerifyRequest.Unmarshal",
     "client_key_exchange": "pkg/protocol/handshake/message_client_key_exchange.go:MessageClientKeyExchange.Unmarshal",
@@ -105,10 +109,10 @@ def monitors(cases):
     return bad
 
 
-def cB(h):
-    """hex string -> `B len [7-byte chunks as primitive ints]` (Codec.C18Run.B)"""
+def chunks(h):
+    """hex string -> `len [7-byte big-endian chunks as primitive ints]` (see Codec.C18Run.B)"""
     b = bytes.fromhex(h)
-    return "(B %d%%nat [%s])" % (len(b), "; ".join(str(int.from_bytes(b[i:i + 7], "big")) for i in range(0, len(b), 7)))
+    return "%d [%s]" % (len(b), "; ".join(str(int.from_bytes(b[i:i + 7], "big")) for i in range(0, len(b), 7)))
 
 
 def ser_dump(d):
@@ -122,15 +126,15 @@ def ser_dump(d):
     return out.hex()
 
 
-def coq_obs(c):
-    if c["res"] != "ok":
-        return "None"
-    re = "None" if c["reenc"] is None else "Some %s" % cB(c["reenc"])
-    return "Some (%s, %s)" % (cB(ser_dump(c["dump"])), re)
-
-
 def coq_term(c):
-    return "(%d%%N, [%s]%%N, %s, %s)" % (c["id"], "; ".join(str(x) for x in c["ctx"]), cB(c["in"]), coq_obs(c))
+    """Codec.C18Run.K id ctx input r dump reenc"""
+    if c["res"] != "ok":
+        obs = "0 0 [] 0 []"
+    elif c["reenc"] is None:
+        obs = "1 %s 0 []" % chunks(ser_dump(c["dump"]))
+    else:
+        obs = "2 %s %s" % (chunks(ser_dump(c["dump"])), chunks(c["reenc"]))
+    return "K %d [%s]%%N %s %s" % (c["id"], "; ".join(str(x) for x in c["ctx"]), chunks(c["in"]), obs)
 
 
 def run(chk):
